@@ -14,15 +14,17 @@ EXTENDS DOpt
 (* passed), "scalar" (Kn[1][1]/DK), "vector" (diagonal), "matrix".              *)
 KMat(s) == s.Kn
 Diag(v) == [i \in 1..Len(v) |-> [j \in 1..Len(v) |-> IF i = j THEN v[i] ELSE 0]]
-NormM(s) == MatMul(KMat(s), s.A)
-NormBl(s) == MatVec(KMat(s), s.bl)
+(* M and blN are computed once, when the record is built (TLC does not memoise) *)
+NormM(s) == s.M
+NormBl(s) == s.blN
 (* relative capture of intensities x (units 1/D) in units 1/(D*DK)            *)
 RelCapture(s, x) == VAdd(MatVec(NormM(s), x), NormBl(s))
 (* absolute capture of intensities x (units 1/D) in units 1/D                 *)
 AbsCapture(s, x) == MatVec(s.A, x)
 
 Sys(A, D, lb, ub, kk, Kn, DK, bk, bl) ==
-  [A |-> A, D |-> D, lb |-> lb, ub |-> ub, kk |-> kk, Kn |-> Kn, DK |-> DK, bk |-> bk, bl |-> bl]
+  [A |-> A, D |-> D, lb |-> lb, ub |-> ub, kk |-> kk, Kn |-> Kn, DK |-> DK, bk |-> bk, bl |-> bl,
+   M |-> MatMul(Kn, A), blN |-> MatVec(Kn, bl)]
 Plain(A, D, lb, ub) == Sys(A, D, lb, ub, "none", Identity(Len(A)), 1, "none", Vec(Len(A), 0))
 
 Bounded(s) == \A j \in 1..Len(s.ub) : s.ub[j] # INF
